@@ -6,7 +6,8 @@ Import ListNotations.
 From NV Require Import Types.Syntax Types.Decl Types.ModelSig Types.Checker Types.CheckerSound Gen.ModelSigGen.
 
 Definition all_prims : list prim :=
-  [PAdd; PSub; PMul; PDiv; PLt; PLe; PGt; PGe; PNot; PConcat; PStrLen; PArrLen; PArrAt; PArrCat; PArrMap; PEq].
+  [PAdd; PSub; PMul; PDiv; PLt; PLe; PGt; PGe; PNot; PConcat; PStrLen; PArrLen; PArrAt; PArrCat; PArrMap; PEq;
+   PRecFields; PRecValues; PRecHas; PRecGet].
 
 Definition sig_tie_ok : bool :=
   forallb (fun oT => match model_sig (fst oT) with
